@@ -250,8 +250,8 @@ var c18PairCtx = []int{1, 2, 4, 5, 7, 10}
 
 // ---------------------------------------------------------------- fault kinds
 
-var c18RunFaults = []string{"1 / 0", "（显示：未有此名）", "抛出异常：“m”！", "【1】#5", "以（新建件）（无此法）", "（需参法）", "令新件 = （新建造件：1、2）"}
-var c18RunFaultNames = []string{"除零", "未定义名", "抛出异常", "索引越界", "对象无此方法", "参数个数不符", "构造参数个数不符"}
+var c18RunFaults = []string{"1 / 0", "（显示：未有此名）", "抛出异常：“m”！", "【1】#5", "以（新建件）（无此法）", "（需参法）", "令新件 = （新建造件：1、2）", "（显示：未有此名、“第一行\n第二行”）"}
+var c18RunFaultNames = []string{"除零", "未定义名", "抛出异常", "索引越界", "对象无此方法", "参数个数不符", "构造参数个数不符", "未定义名_语句跨两行"}
 
 // c18KindNoMethod: a method that the object's type (件, defined at the top of the fault's file) does
 // not have: no call starts, so the chain ends at the line of the statement
@@ -373,6 +373,7 @@ type c18Builder struct {
 	viaLine   int
 	viaText   string
 	nvar      int
+	fExtra    int // physical lines of the fault statement behind its first one
 	aligned   [2][]int // Other >= 3: line numbers on which a method of module 齐 (calls in the main file) / 齐外 (calls in 外) must end
 	extFile   *c18File
 	alignedH  int // Other == 4: the line number on which the method of module 齐拦 must end (0: none)
@@ -446,7 +447,13 @@ func (b *c18Builder) fault(f *c18File, ind int) {
 		} else {
 			text = c18RunFaults[p.Kind]
 		}
-		b.fLine = put(ind, text)
+		// (a fault statement may hold a text with a real line break: it begins on its first line)
+		parts := strings.Split(text, "\n")
+		b.fLine = put(ind, parts[0])
+		for _, more := range parts[1:] {
+			f.raw(more)
+		}
+		b.fExtra = len(parts) - 1
 		b.fText = trimIndent(f.lines[b.fLine-1])
 	case p.Kind <= c18SynBadWide:
 		pf := c18Prefixes[p.Prefix]
@@ -667,7 +674,7 @@ func c18Build(p c18Params) (pr c18Prog) {
 		}
 		b.topCtx(f)
 		b.body(f, 0)
-		if p.NoTrail && b.fLine != len(f.lines) {
+		if p.NoTrail && b.fLine+b.fExtra != len(f.lines) {
 			panic("c18 generator: no_trailing_eol needs the fault on the last line")
 		}
 		pr.Syn = b.syn
@@ -813,7 +820,7 @@ func c18Build(p c18Params) (pr c18Prog) {
 			main.add(1, "输出 -9")
 		}
 	}
-	if p.NoTrail && b.fLine != len(faultFile.lines) {
+	if p.NoTrail && b.fLine+b.fExtra != len(faultFile.lines) {
 		panic("c18 generator: no_trailing_eol needs the fault on the last line")
 	}
 	for l := 0; l < D; l++ {
@@ -1103,7 +1110,9 @@ func c18Check(p c18Params) (f *mc.Failure) {
 			if rev {
 				e = entries[len(entries)-1-i]
 			}
-			if e.HasText && e.Text != want[i].Text {
+			// every entry quotes the line it names (an entry without a quoted line names no place
+			// a reader can look at), and the quoted line is that line
+			if (!e.HasText && !e.Native) || (e.HasText && e.Text != want[i].Text) {
 				return "quoted-text", i
 			}
 		}
